@@ -494,7 +494,14 @@ fn run_cache_case(c: &Case) -> Result<(), String> {
 fn run_class_case(c: &Case) -> Result<(), String> {
     let r = catch_unwind(AssertUnwindSafe(|| {
         let p = &c.modes[0].pats[0].p;
-        let re = full(p);
+        // scnr documents the verbatim `.` inside a class as "neither \\n nor \\r"; the regex crate reads it as a literal dot
+        let mut q = String::new();
+        let mut esc = false;
+        for ch in p.chars() {
+            if !esc && ch == '.' { q.push_str("[^\\n\\r]"); } else { q.push(ch); }
+            esc = !esc && ch == '\\';
+        }
+        let re = full(&q);
         let sc = build(&c.modes).map_err(|e| format!("build failed: {e}"))?;
         for ch in c.input.chars() {
             let s = ch.to_string();
@@ -510,7 +517,7 @@ fn run_class_case(c: &Case) -> Result<(), String> {
 }
 
 fn gen_class(r: &mut Rng, depth: usize) -> String {
-    const ATOMS: &[&str] = &["a", "b", "c-e", "a-c", "x", "é", "0-9", "b-d", "\\n", "z"];
+    const ATOMS: &[&str] = &["a", "b", "c-e", "a-c", "x", "é", "0-9", "b-d", "\\n", "z", ".", "\\."];
     let mut s = String::from("[");
     if r.below(3) == 0 { s.push('^'); }
     let n = 1 + r.below(3);
@@ -519,7 +526,7 @@ fn gen_class(r: &mut Rng, depth: usize) -> String {
     }
     if depth > 0 && r.below(2) == 0 {
         s.push_str(*r.pick(&["&&", "--", "~~"]));
-        s.push_str(&gen_class(r, depth - 1));
+        if r.below(6) != 0 { s.push_str(&gen_class(r, depth - 1)); }
     }
     s.push(']');
     s
@@ -713,7 +720,7 @@ fn gen_case(family: &str, r: &mut Rng) -> Case {
         "classes" => {
             let p = gen_class(r, 2);
             Case { family: family.into(), modes: vec![ModeSpec { name: "M0".into(), pats: vec![PatSpec { p, tt: 0, la: None }], trans: vec![] }],
-                   input: "abcdexz0359é\n-^.A".into(), start_offset: 0, ops: vec![], with_positions: false }
+                   input: "abcdexz0359é\n\r-^.A".into(), start_offset: 0, ops: vec![], with_positions: false }
         }
         "positions" => {
             let pats = gen_pats(r, false, npat, 0);
